@@ -162,11 +162,25 @@ def through_loaders(run, codes, minor, middle, major):
                         i = int(np.argmax(np.abs(got - ref[raw]).max(axis=1)))
                         run.violation('euler-loader-mismatch', dict(column=f'{s}{name}{c}', code=int(raw[i]), got=got[i].tolist(), direct=ref[raw][i].tolist()))
                 # one column alone must give the same as all together
-        for f in (fields[0], fields[7], fields[16]):
-            cat1 = CompaSOHaloCatalog(tree['path'], cleaned=False, fields=[f])
-            run.ev()
-            if not np.array_equal(cat1.halos[f], cat.halos[f]):
-                run.violation('euler-loader-mismatch', dict(column=f, problem='single-column load differs'))
+        # every axis column alone and in the partial combinations (the loader decodes a triad per request)
+        for s in stems:
+            for c in ('_com', '_L2com'):
+                names = {w: f'{s}{w}{c}' for w in ('Min', 'Mid', 'Maj')}
+                for combo in (('Min',), ('Mid',), ('Maj',), ('Mid', 'Maj'), ('Min', 'Maj'), ('Maj', 'Mid')):
+                    req = [names[w] for w in combo]
+                    cat1 = CompaSOHaloCatalog(tree['path'], cleaned=False, fields=req)
+                    run.ev()
+                    run.nt(('loader-subset', s, c, combo))
+                    for f in req:
+                        a = np.asarray(cat1.halos[f], dtype=np.float64)
+                        if not np.array_equal(cat1.halos[f], cat.halos[f]):
+                            i = int(np.argmax(np.abs(a - np.asarray(cat.halos[f], dtype=np.float64)).max(axis=1)))
+                            run.violation('euler-loader-mismatch', dict(column=f, requested=req, problem='axis differs from the all-columns load', row=i, code=int(tree['raw'][f'{s}{c}_u16'][i]), norm=float(np.linalg.norm(a[i]))))
+                            break
+                        nrm = np.linalg.norm(a, axis=1)
+                        if (np.abs(nrm - 1) > 1e-6).any():
+                            run.violation('euler-not-orthonormal', dict(path='loader', column=f, requested=req, worst_norm=float(nrm[np.argmax(np.abs(nrm - 1))])))
+                            break
         run.count('loader_columns_checked', len(fields))
     finally:
         shutil.rmtree(tree['root'], ignore_errors=True)
